@@ -363,10 +363,17 @@ Move* generate_pinned_pawn_moves(Square from, Ray ray, const Position& pos,
     }
     else
     {
+        // pawn pinned on a diagonal can capture enpassant along that diagonal:
+        //  it stays on the pin ray and the captured pawn (next to it on
+        //  the same rank) cannot be shielding the king from any other slider
+        Bitboard capture_bb = pos.pieces(!side);
+        if (pos.enpassant_square() != NO_SQUARE)
+            capture_bb |= square_bb(pos.enpassant_square());
+
         switch (ray & 3)
         {
         case 0:
-            if (shift<UPLEFT>(square_bb(from)) & pos.pieces(!side))
+            if (shift<UPLEFT>(square_bb(from)) & capture_bb)
                 *list++ = create_move(from, Square(static_cast<uint64_t>(from) + static_cast<uint64_t>(UPLEFT)));
             break;
         case 1:
@@ -378,7 +385,7 @@ Move* generate_pinned_pawn_moves(Square from, Ray ray, const Position& pos,
             }
             break;
         case 2:
-            if (shift<UPRIGHT>(square_bb(from)) & pos.pieces(!side))
+            if (shift<UPRIGHT>(square_bb(from)) & capture_bb)
                 *list++ = create_move(from, Square(static_cast<uint64_t>(from) + static_cast<uint64_t>(UPRIGHT)));
             break;
         }
